@@ -22,6 +22,9 @@ type CaseSpec struct {
 	MaxPaths    int64             `json:"max_paths,omitempty"`
 	Replay      map[string]uint64 `json:"replay,omitempty"` // concrete values for nondets (replay mode)
 	Twin        bool              `json:"twin,omitempty"`   // vacuity twin: expect a violation of the final assert(false)
+	// UnwindIsViolation: the unwinding bound is a proven bound on every loop of the code under test,
+	// so exceeding it is a termination violation instead of an inconclusive result.
+	UnwindIsViolation bool `json:"unwind_is_violation,omitempty"`
 }
 
 type JobSpec struct {
@@ -322,6 +325,9 @@ func runCase(in *Interp, workers []*Worker, cs *CaseSpec) *CaseResult {
 					v := st.violationFromPath(name, st.msg)
 					cr.Violations = append(cr.Violations, v)
 				case stUnwind, stStepLimit, stEngineErr, stInconclusive:
+					if st.status == stUnwind && cs.UnwindIsViolation {
+						break
+					}
 					if !seenInc[st.msg] && len(cr.Inconclusive) < 20 {
 						seenInc[st.msg] = true
 						cr.Inconclusive = append(cr.Inconclusive, name+": "+st.msg)
@@ -330,7 +336,7 @@ func runCase(in *Interp, workers []*Worker, cs *CaseSpec) *CaseResult {
 				if len(st.viols) > 0 {
 					cr.Violations = append(cr.Violations, st.viols...)
 				}
-				if st.status == stUnwind && st.unwindViolation {
+				if st.status == stUnwind && cs.UnwindIsViolation {
 					v := st.violationFromPath("nontermination", st.msg)
 					cr.Violations = append(cr.Violations, v)
 				}
